@@ -55,6 +55,7 @@ def executor(P, R, budget):
     ex.recursion_bound = 0
     ex.event_budget = budget
     ex.tolerate_unsupported = True
+    ex.assume_index_in_bounds = True      # `self.tokens[self.pos - 1]` right after a token was consumed
     ex.summarize = [r"Parser::<'_>::\w+$", r"ToString>::to_string$", r"CompileError::\w+$"]
     return ex
 
@@ -96,9 +97,11 @@ def trace(o):
     out = []
     for e in o.events:
         name = e[0].split("::")[-1]
-        if name in ("check", "match_token", "expect"):
+        if name in ("check", "match_token", "expect", "check_keyword"):
             res = ev_true(o, e[2]) if name != "expect" else e[2]
             out.append((name, tok(e[1][1]) if len(e[1]) > 1 else "?", res))
+        elif name in ("index", "advance", "peek_next", "peek", "current_span"):
+            continue
         elif name in ("current_span", "syntax", "to_string"):
             continue
         else:
@@ -259,7 +262,15 @@ LEVELS = {
     "additive": ("multiplicative", {"Plus": "Add", "Minus": "Sub"}, "left"),
     "multiplicative": ("power", {"Star": "Mul", "SlashSlash": "FloorDiv", "Slash": "Div", "Percent": "Mod"}, "left"),
     "power": ("unary", {"StarStar": "Pow"}, "right"),
+    "comparison": ("range_expr", {"EqEq": "Eq", "NotEq": "NotEq", "Lt": "Lt", "Gt": "Gt", "LtEq": "LtEq", "GtEq": "GtEq", "In": "In",
+                                  "Is": "Is"}, "left"),
 }
+# prefix levels: (token, AST unary operator, sub-parser when the token is absent)
+PREFIX = {"not_expr": ("Not", "Not", "comparison"), "unary": ("Minus", "Neg", None)}
+
+
+class SkipPath(Exception):
+    pass
 
 
 def expected_level(level, tr):
@@ -271,7 +282,12 @@ def expected_level(level, tr):
     i = 1
     while i < len(tr):
         matched = None
-        while i < len(tr) and tr[i][0] == "match_token":
+        while i < len(tr) and tr[i][0] in ("match_token", "check_keyword"):
+            if tr[i][0] == "check_keyword":
+                if tr[i][2]:
+                    raise SkipPath()      # the two-token operator `not in`: outside this obligation
+                i += 1
+                continue
             if tr[i][1] not in ops:
                 raise ValueError(f"{level} asks for a token of another level: {tr[i][1]}")
             if tr[i][2]:
@@ -304,7 +320,7 @@ def run_parse_levels(log_dir):
     results = []
     for level in LEVELS:
         f = parser_fn(P, level)
-        ex = executor(P, R, 11 if len(LEVELS[level][1]) > 2 else 8)
+        ex = executor(P, R, {"multiplicative": 11, "comparison": 13}.get(level, 8))
         args, outs = run_fn(ex, f)
         encoded += ex.encoded
         paths += len(outs)
@@ -328,6 +344,8 @@ def run_parse_levels(log_dir):
                     continue
             try:
                 want = expected_level(level, tr)
+            except SkipPath:
+                continue
             except ValueError as e:
                 lbad.append(conj(o.pc))
                 lwhy.append(f"{level}: protocol: {e}")
@@ -340,12 +358,64 @@ def run_parse_levels(log_dir):
                 lbad.append(conj(o.pc))
                 lwhy.append(f"{level}: trace {[(q, t_, r_) for q, t_, r_ in tr]} should parse to {want}, parser builds {got}")
         results.append((level, ex, lbad, lwhy))
+    # prefix operators: `not e`, `-e`
+    for level, (token, astop, fallthrough) in PREFIX.items():
+        f = parser_fn(P, level)
+        ex = executor(P, R, 6)
+        selfv = ex.sym_value("Parser", "self")
+        pd = R.resolve("Parser")
+        pnames = [x[0] for x in pd.variants[0][1]] if pd is not None else []
+        if "pos" in pnames:
+            # a token has just been consumed when `pos - 1` is evaluated
+            ex.enc.side.append(f"(>= {selfv.child(None, pnames.index('pos')).term} 1)")
+        ex.call_stack = [f.name]
+        try:
+            outs = ex._run(f, [selfv], {}, 0, None)
+        finally:
+            ex.call_stack = []
+        encoded += ex.encoded
+        paths += len(outs)
+        lbad, lwhy = [], []
+        for o in outs:
+            if o.kind == "unsupported":
+                lbad.append(conj(o.pc))
+                lwhy.append(f"{level}: unsupported MIR: {o.info}")
+                continue
+            if o.kind != "return":
+                lbad.append(conj(o.pc))
+                lwhy.append(f"{level}: panic {o.info}")
+                continue
+            v = ex.deref(o.value, o.state)
+            if isinstance(v, Adt) and v.variant == "Err":
+                continue
+            tr = trace(o)
+            if not tr or tr[0][0] != "match_token" or tr[0][1] != token:
+                lbad.append(conj(o.pc))
+                lwhy.append(f"{level}: does not start by looking for `{token}`: {tr}")
+                continue
+            got = tree(v, ex, o.state)
+            if tr[0][2]:
+                calls = [q for q in tr if q[0] == "call"]
+                ok = (len(calls) == 1 and calls[0][1] == level and isinstance(got, tuple) and got[0] == "Unary"
+                      and got[1] == (astop,) and got[2] == ok_payload_name(calls[0][2]))
+                n_ok += 1
+                if not ok:
+                    lbad.append(conj(o.pc))
+                    lwhy.append(f"{level}: after `{token}` the parser builds {got} from trace {tr}")
+            elif fallthrough is not None:
+                calls = [q for q in tr if q[0] == "call"]
+                ok = len(calls) == 1 and calls[0][1] == fallthrough and got in (calls[0][2], ok_payload_name(calls[0][2]))
+                if not ok:
+                    lbad.append(conj(o.pc))
+                    lwhy.append(f"{level}: without `{token}` the parser must hand over to {fallthrough}: {tr} -> {got}")
+        results.append((level, ex, lbad, lwhy))
     r = {"id": "X-parse_operators", "engine": "E2-X mirsmt (slice)",
          "statement": "binary-operator grammar: `or` < `and` < ... < `+ -` < `* / // %` < `**`: each level takes its operands from the next "
                       "tighter level, maps each operator token to the AST operator of the same meaning, groups to the left "
                       "(`a - b - c` = `(a - b) - c`) and `**` to the right (`a ** b ** c` = `a ** (b ** c)`)",
-         "bound": f"Parser::or_expr, and_expr, additive, multiplicative, power: every protocol trace with up to 2-3 operators per level "
-                  f"({paths} paths); token stream (lexer) not modelled; not / comparison / range levels not included",
+         "bound": f"Parser::or_expr, and_expr, not_expr, comparison (all operators but the two-token `not in`), additive, multiplicative, power, "
+                  f"unary minus: every protocol trace with up to 2-3 operators per level ({paths} paths); token stream (lexer) not modelled; "
+                  "the range level is not included",
          "encoding": "token queries as uninterpreted booleans; AST as constructed values",
          "functions_encoded": [n + " (MIR)" for n in encoded], "paths": paths, "samples_tokens": samples}
     # feasibility of any bad path (per level, own solver context)
@@ -356,7 +426,13 @@ def run_parse_levels(log_dir):
             continue
         res = solver.check(mp.smt_lines(ex, [disj(lbad2)]), [], "z3", 60)
         if res.status != "unsat":
-            worst = (level, lwhy[0], res.status)
+            # name the path that is actually feasible
+            reason = lwhy[0]
+            for b, w in zip(lbad, lwhy):
+                if b != "false" and solver.check(mp.smt_lines(ex, [b]), [], "z3", 60).status != "unsat":
+                    reason = w
+                    break
+            worst = (level, reason, res.status)
             break
     r["wall_s"] = round(time.time() - t0, 2)
     if n_ok == 0:
@@ -364,7 +440,7 @@ def run_parse_levels(log_dir):
         return r
     r["vacuity_ok"] = True
     if worst is None:
-        r.update(status="held", solver=f"{paths} paths over 5 levels: no feasible path deviates")
+        r.update(status="held", solver=f"{paths} paths over {len(results)} levels: no feasible path deviates")
         return r
     return native_check(r, "operators", worst[1], log_dir)
 
@@ -397,7 +473,13 @@ NATIVE = {
                   ("a // b % c", "(Mod (FloorDiv a b) c)"), ("a % b // c", "(FloorDiv (Mod a b) c)"), ("a ** b ** c", "(Pow a (Pow b c))"),
                   ("a + b * c", "(Add a (Mul b c))"), ("a * b + c", "(Add (Mul a b) c)"), ("a * b ** c", "(Mul a (Pow b c))"),
                   ("a - b * c - a", "(Sub (Sub a (Mul b c)) a)"), ("p or q and r", "(Or p (And q r))"), ("p and q or r", "(Or (And p q) r)"),
-                  ("p or q or r", "(Or (Or p q) r)"), ("a / b", "(Div a b)"), ("a // b", "(FloorDiv a b)"), ("a % b", "(Mod a b)")],
+                  ("p or q or r", "(Or (Or p q) r)"), ("a / b", "(Div a b)"), ("a // b", "(FloorDiv a b)"), ("a % b", "(Mod a b)"),
+                  ("a < b", "(Lt a b)"), ("a <= b", "(LtEq a b)"), ("a > b", "(Gt a b)"), ("a >= b", "(GtEq a b)"), ("a == b", "(Eq a b)"),
+                  ("a != b", "(NotEq a b)"), ("a + b < c", "(Lt (Add a b) c)"), ("not p and q", "(And (Not p) q)"),
+                  ("not a < b", "(Not (Lt a b))"), ("-a + b", "(Add (Neg a) b)"), ("a - -b", "(Sub a (Neg b))"),
+                  ("p and a < b", "(And p (Lt a b))"), ("- -a", "(Neg (Neg a))"), ("not not p", "(Not (Not p))"),
+                  ("-a * b", "(Mul (Neg a) b)"), ("not p or q", "(Or (Not p) q)"),
+                  ("a == b and p", "(And (Eq a b) p)"), ("a - b < c - a", "(Lt (Sub a b) (Sub c a))")],
 }
 
 
